@@ -85,11 +85,19 @@ fn check_break_assignment(context: &CheckerContext) -> GenericResult<()> {
             .stops
             .last()
             .map(|stop| {
-                stop.activities()
+                // NOTE: a job activity in the same stop is reached once the previous one is done
+                let activities = stop.activities();
+                let arrival_time = activities
                     .last()
                     .filter(|activity| activity.activity_type == "arrival")
-                    .and_then(|activity| activity.time.as_ref())
-                    .map_or_else(|| parse_time(&stop.schedule().arrival), |time| parse_time(&time.start))
+                    .and_then(|activity| activity.time.as_ref().map(|time| &time.start));
+                let previous_time = activities
+                    .len()
+                    .checked_sub(2)
+                    .and_then(|idx| activities.get(idx))
+                    .and_then(|activity| activity.time.as_ref().map(|time| &time.end));
+
+                parse_time(arrival_time.or(previous_time).unwrap_or(&stop.schedule().arrival))
             })
             .ok_or_else(|| GenericError::from(format!("cannot get arrival for tour '{}'", tour.vehicle_id)))?;
 
@@ -171,8 +179,8 @@ fn as_leg_info_with_break<'a>(
 
 /// Gets break time window.
 pub(crate) fn get_break_time_window(tour: &Tour, vehicle_break: &VehicleBreak) -> GenericResult<TimeWindow> {
-    let departure = get_route_start_time(tour)
-        .map_err(|_| format!("cannot get departure time for tour: '{}'", tour.vehicle_id))?;
+    let departure =
+        get_route_start_time(tour).map_err(|_| format!("cannot get departure time for tour: '{}'", tour.vehicle_id))?;
 
     match vehicle_break {
         VehicleBreak::Optional { time: VehicleOptionalBreakTime::TimeWindow(tw), .. } => Ok(parse_time_window(tw)),
